@@ -732,6 +732,7 @@ Definition file_hdr_of (buf : bytes) (nv : option bytes) : filehdr :=
 Definition file_tail (nvar : bytes -> option bytes) (rs : Z -> bytes -> Z -> outcome (node * Z))
   (pol : Z) (buf : bytes) (ext doff : Z) : outcome (option node * Z) :=
   if zlen buf <? ext then Err E_SIZE else
+  if ext <? doff then Err E_SIZE else
   let fbuf := sub 0 ext buf in
   do nv <-
     (if (rd 18 1 buf =? 1) && bytes_eqb (sub 0 16 buf) NVAR_GUID then
@@ -768,6 +769,7 @@ Lemma file_tail_inv nvar rs pol buf ext doff r : file_tail nvar rs pol buf ext d
 Proof.
   unfold file_tail. cbv zeta.
   destruct (zlen buf <? ext) eqn:E1; [discriminate|].
+  destruct (ext <? doff) eqn:E2; [discriminate|].
   destruct ((rd 18 1 buf =? 1) && bytes_eqb (sub 0 16 buf) NVAR_GUID).
   - destruct (zlen (sub 0 ext buf) <=? doff); cbn [bind]; [discriminate|].
     destruct (negb (supported_file (rd 18 1 buf))).
@@ -1984,6 +1986,55 @@ Proof.
   split; [vm_compute; reflexivity|]. split; vm_compute; reflexivity.
 Qed.
 
+(* generic packaging (no big term in sight): from the computed facts to the readable statement *)
+Lemma witness_from_facts (b b' : bytes) (r r' : outcome (node * Z)) :
+  r = parse_fv dec0 u2s0 nvar0 3 240 b 0 false ->
+  r' = parse_fv dec0 u2s0 nvar0 3 240 b' 0 false ->
+  (is_ok r = true /\ is_vol (res_node r) = true /\ res_pol r = 255 /\
+   validate (res_node r) = Ok [] /\ length (node_kids (res_node r)) = 2%nat /\
+   v_dataoff (node_vh (res_node r)) = 72 /\ v_length (node_vh (res_node r)) = 65664 /\
+   match file_at 72 (node_kids (res_node r)) 0 with
+   | Some (NFile fh _ _, o) => (o =? 72) && negb (attr_large (f_attr fh))
+   | _ => false end = true) ->
+  (is_ok r' = true /\ is_vol (res_node r') = true /\ res_pol r' = 255 /\
+   validate (res_node r') = Ok [] /\ length (node_kids (res_node r')) = 0%nat) ->
+  bytes_ok b = true -> fv_hdr_extent b <= 72 -> single_change b (72 + 22) b' ->
+  becomes_free_marker (sub 72 (65664 - 72) b') ->
+  exists h buf kids fh fb fk,
+    parse_fv dec0 u2s0 nvar0 3 240 b 0 false = Ok (NVol h buf kids, 255) /\
+    validate (NVol h buf kids) = Ok [] /\ bytes_ok b = true /\ fv_hdr_extent b <= v_dataoff h /\
+    length kids = 2%nat /\
+    file_at (v_dataoff h) kids 0 = Some (NFile fh fb fk, 72) /\
+    prot_hdr (attr_large (f_attr fh)) 22 /\
+    single_change b (72 + 22) b' /\
+    becomes_free_marker (sub 72 (v_length h - 72) b') /\
+    exists h' buf', parse_fv dec0 u2s0 nvar0 3 240 b' 0 false = Ok (NVol h' buf' [], 255) /\
+                    validate (NVol h' buf' []) = Ok [].
+Proof.
+  intros Hr Hr' F F' Hok Hext HS Hfm. rewrite <- Hr, <- Hr'. clear Hr Hr'.
+  destruct r as [[n p]| | |]; destruct F as (F1 & F2 & F3 & F4 & F5 & F6 & F7 & F8); try discriminate.
+  destruct n as [| |h buf kids|]; try discriminate.
+  cbn [res_node res_pol node_vh node_kids] in *. subst p.
+  destruct r' as [[n' p']| | |]; destruct F' as (G1 & G2 & G3 & G4 & G5); try discriminate.
+  destruct n' as [| |h' buf' kids'|]; try discriminate.
+  cbn [res_node res_pol node_vh node_kids] in *. subst p'.
+  destruct kids' as [|? ?]; [|discriminate].
+  destruct (file_at 72 kids 0) as [[f o]|] eqn:EA; [|discriminate].
+  destruct f as [|fh fb fk| |]; try discriminate.
+  apply andb_true_iff in F8 as [Fo Fl]. apply Z.eqb_eq in Fo. subst o.
+  exists h, buf, kids, fh, fb, fk. rewrite F6, F7.
+  split; [reflexivity|]. split; [exact F4|]. split; [exact Hok|]. split; [exact Hext|].
+  split; [exact F5|]. split; [exact EA|]. split; [right; left; lia|]. split; [exact HS|].
+  split; [exact Hfm|]. exists h', buf'. split; [reflexivity|exact G4].
+Qed.
+
+Lemma ex_big_side : bytes_ok ex_big = true /\ fv_hdr_extent ex_big <= 72 /\
+  becomes_free_marker (sub 72 (65664 - 72) ex_big').
+Proof.
+  split; [vm_compute; reflexivity|]. split; [vm_compute; discriminate|].
+  split; [vm_compute; reflexivity|]. split; [vm_compute; discriminate|]. vm_compute; reflexivity.
+Qed.
+
 (* every hypothesis of the file-header theorem except the side condition holds, the altered image
    parses (both files have vanished) and validate reports nothing *)
 Lemma free_marker_witness :
@@ -1998,27 +2049,9 @@ Lemma free_marker_witness :
     exists h' buf', parse_fv dec0 u2s0 nvar0 3 240 b' 0 false = Ok (NVol h' buf' [], 255) /\
                     validate (NVol h' buf' []) = Ok [].
 Proof.
-  pose proof ex_big_facts as F. pose proof ex_big_facts' as F'. cbv zeta in F, F'.
-  destruct (parse_fv dec0 u2s0 nvar0 3 240 ex_big 0 false) as [[n p]| | |] eqn:E;
-    destruct F as (F1 & F2 & F3 & F4 & F5 & F6 & F7 & F8); try discriminate.
-  destruct n as [| |h buf kids|]; try discriminate.
-  cbn [res_node res_pol node_vh node_kids] in *. subst p.
-  destruct (parse_fv dec0 u2s0 nvar0 3 240 ex_big' 0 false) as [[n' p']| | |] eqn:E';
-    destruct F' as (G1 & G2 & G3 & G4 & G5); try discriminate.
-  destruct n' as [| |h' buf' kids'|]; try discriminate.
-  cbn [res_node res_pol node_vh node_kids] in *. subst p'.
-  destruct kids' as [|? ?]; [|discriminate].
-  rewrite F6 in *. rewrite F7.
-  destruct (file_at 72 kids 0) as [[f o]|] eqn:EA; [|discriminate].
-  destruct f as [|fh fb fk| |]; try discriminate.
-  apply andb_true_iff in F8 as [Fo Fl]. apply Z.eqb_eq in Fo. subst o.
-  exists ex_big, ex_big', h, buf, kids, fh, fb, fk.
-  split; [exact E|]. split; [exact F4|]. split; [vm_compute; reflexivity|].
-  split; [vm_compute; discriminate|]. split; [exact F5|]. split; [exact EA|].
-  split; [right; left; lia|]. split; [exact ex_big_change|].
-  split.
-  - split; [vm_compute; reflexivity|]. split; [vm_compute; discriminate|]. vm_compute; reflexivity.
-  - exists h', buf'. split; [exact E'|exact G4].
+  exists ex_big, ex_big'.
+  exact (witness_from_facts ex_big ex_big' _ _ eq_refl eq_refl ex_big_facts ex_big_facts'
+           (proj1 ex_big_side) (proj1 (proj2 ex_big_side)) ex_big_change (proj2 (proj2 ex_big_side))).
 Qed.
 
 (* G.2 the body-checksum check of the pinned code (body bytes alone must sum to zero) *)
@@ -2035,7 +2068,7 @@ Proof.
 Qed.
 
 (* ... and does not look at the body-checksum byte of a file that has the checksum attribute *)
-Definition ex_sum_file : bytes := zrepeat 9 16 ++ [19; 0; 1; 64] ++ [27; 0; 0] ++ [248] ++ [1; 255; 0].
+Definition ex_sum_file : bytes := zrepeat 9 16 ++ [20; 0; 1; 64] ++ [27; 0; 0] ++ [248] ++ [1; 255; 0].
 Definition ex_sum_file' : bytes := splice 17 [77] ex_sum_file.
 
 Lemma old_bodysum_miss :
@@ -2047,8 +2080,8 @@ Lemma old_bodysum_miss :
     validate_file_old h' fbuf' = Ok [].
 Proof.
   exists ex_sum_file, ex_sum_file'.
-  exists (mkFile (zrepeat 9 16) 19 0 1 64 27 248 27 24 None), ex_sum_file.
-  exists (mkFile (zrepeat 9 16) 19 77 1 64 27 248 27 24 None), ex_sum_file'.
+  exists (mkFile (zrepeat 9 16) 20 0 1 64 27 248 27 24 None), ex_sum_file.
+  exists (mkFile (zrepeat 9 16) 20 77 1 64 27 248 27 24 None), ex_sum_file'.
   split; [vm_compute; reflexivity|]. split; [vm_compute; reflexivity|].
   split; [vm_compute; reflexivity|]. split; [vm_compute; reflexivity|].
   split.
@@ -2056,4 +2089,119 @@ Proof.
     split; [vm_compute; reflexivity|]. split; [vm_compute; reflexivity|].
     split; [vm_compute; reflexivity|]. repeat split; lia.
   - split; vm_compute; reflexivity.
+Qed.
+
+(* ================= Part H: the statements for the depth-fuelled parsers ================= *)
+
+Section Parsers.
+Variables (dec : Z -> bytes -> option bytes) (u2s : bytes -> bytes) (nvar : bytes -> option bytes).
+
+Lemma thm_fv_header_detects d pol pol2 b b' fvoff fvoff' res res' h buf kids pol' i :
+  parse_fv dec u2s nvar (S d) pol b fvoff res = Ok (NVol h buf kids, pol') ->
+  validate (NVol h buf kids) = Ok [] ->
+  single_change b i b' -> i < v_hdrlen h -> ~ (40 <= i < 44) ->
+  forall r, parse_fv dec u2s nvar (S d) pol2 b' fvoff' res' = Ok r -> reports (fst r).
+Proof.
+  intros HP HV. apply validate_vol_node_clean in HV. destruct HV as [HV _].
+  exact (fv_header_detects (parse_file dec u2s nvar d) (parse_file dec u2s nvar d)
+           pol pol2 b b' fvoff fvoff' res res' h buf kids pol' i HP HV).
+Qed.
+
+Lemma thm_file_header_detects d pol b b' fvoff res h buf kids pol' k fh fb fk o j :
+  parse_fv dec u2s nvar (S (S d)) pol b fvoff res = Ok (NVol h buf kids, pol') ->
+  validate (NVol h buf kids) = Ok [] -> bytes_ok b = true -> fv_hdr_extent b <= v_dataoff h ->
+  file_at (v_dataoff h) kids k = Some (NFile fh fb fk, o) ->
+  prot_hdr (attr_large (f_attr fh)) j -> single_change b (o + j) b' ->
+  ~ becomes_free_marker (sub o (v_length h - o) b') ->
+  forall r, parse_fv dec u2s nvar (S (S d)) pol b' fvoff res = Ok r -> reports (fst r).
+Proof.
+  intros HP HV Hok Hext Hat.
+  exact (file_header_detects nvar (parse_section dec u2s nvar d) pol b b' fvoff res h buf kids pol' k fh fb fk o
+           HP HV Hok Hext Hat j).
+Qed.
+
+Lemma thm_body_detects d pol b b' fvoff res h buf kids pol' k fh fb fk o j :
+  parse_fv dec u2s nvar (S (S d)) pol b fvoff res = Ok (NVol h buf kids, pol') ->
+  validate (NVol h buf kids) = Ok [] -> bytes_ok b = true -> fv_hdr_extent b <= v_dataoff h ->
+  file_at (v_dataoff h) kids k = Some (NFile fh fb fk, o) ->
+  attr_checksum (f_attr fh) = true -> file_hs fh <= j < f_ext fh -> single_change b (o + j) b' ->
+  forall r, parse_fv dec u2s nvar (S (S d)) pol b' fvoff res = Ok r -> reports (fst r).
+Proof.
+  intros HP HV Hok Hext Hat.
+  exact (file_body_detects nvar (parse_section dec u2s nvar d) pol b b' fvoff res h buf kids pol' k fh fb fk o
+           HP HV Hok Hext Hat j).
+Qed.
+
+Lemma thm_bodysum_detects d pol b b' fvoff res h buf kids pol' k fh fb fk o :
+  parse_fv dec u2s nvar (S (S d)) pol b fvoff res = Ok (NVol h buf kids, pol') ->
+  validate (NVol h buf kids) = Ok [] -> bytes_ok b = true -> fv_hdr_extent b <= v_dataoff h ->
+  file_at (v_dataoff h) kids k = Some (NFile fh fb fk, o) ->
+  single_change b (o + 17) b' ->
+  forall r, parse_fv dec u2s nvar (S (S d)) pol b' fvoff res = Ok r -> reports (fst r).
+Proof. exact (file_bodysum_detects nvar (parse_section dec u2s nvar d) pol b b' fvoff res h buf kids pol' k fh fb fk o). Qed.
+
+End Parsers.
+
+Lemma zlen_0_inv {A} (l : list A) : zlen l = 0 -> l = [].
+Proof. destruct l; [reflexivity|]. rewrite zlen_cons. pose proof (zlen_nonneg l). lia. Qed.
+Lemma zlen_1_inv {A} (l : list A) : zlen l = 1 -> exists a, l = [a].
+Proof.
+  destruct l as [|a l]; [discriminate|]. rewrite zlen_cons. intros H.
+  rewrite (zlen_0_inv l) by lia. eauto.
+Qed.
+Lemma zlen_2_inv {A} (l : list A) : zlen l = 2 -> exists a b, l = [a; b].
+Proof.
+  destruct l as [|a l]; [discriminate|]. rewrite zlen_cons. intros H.
+  destruct (zlen_1_inv l ltac:(lia)) as [b ->]. eauto.
+Qed.
+
+(* when does a single header byte turn a clean file header into the free-space marker: exactly
+   when a size byte is raised to FF, the other two size bytes already are FF, the file is not
+   large (so it is at least 0xFFFF bytes long) and its body starts with eight FF bytes *)
+Lemma free_marker_class nvar rs pol fb fb' j h fbuf kids pol' :
+  file_body nvar rs pol fb = Ok (Some (NFile h fbuf kids), pol') ->
+  validate_file h fbuf = Ok [] -> bytes_ok fb = true -> single_change fb j fb' -> 0 <= j < 24 ->
+  becomes_free_marker fb' ->
+  20 <= j < 23 /\ attr_large (f_attr h) = false /\ f_size3 h <> 16777215 /\
+  rd 20 3 fb' = 16777215 /\ rd 24 8 fb = U64 - 1 /\ 65535 <= f_ext h.
+Proof.
+  intros HP HV Hok HS Hj (M1 & M2 & M3).
+  destruct (file_body_inv _ _ _ _ _ HP) as (L24 & [[_ K]|(FM & L32 & Lext & nv & kids0 & pol0 & K)]);
+    [discriminate|].
+  injection K as -> -> -> ->.
+  apply validate_file_clean in HV. destruct HV as (C1 & C2 & C3 & C4 & _).
+  unfold file_hs in C1. cbn [file_hdr_of file_hdr_gen f_attr f_size3 f_ext] in *.
+  pose proof (single_change_len _ _ _ HS) as Len.
+  assert (E8 : rd 24 8 fb' = rd 24 8 fb) by (eapply single_change_rd_same; [exact HS|lia|right; lia]).
+  rewrite E8 in M3.
+  assert (N3 : rd 20 3 fb <> 16777215).
+  { intros E. unfold is_free_marker in FM. rewrite E in FM. cbn [Z.eqb Pos.eqb andb] in FM.
+    specialize (L32 E). replace (zlen fb <? 32) with false in FM by lia. lia. }
+  assert (J : 20 <= j < 23).
+  { destruct (Z_lt_ge_dec j 20) as [Hlo|Hge]; [|destruct (Z_lt_ge_dec j 23) as [?|Hhi]; [lia|]].
+    - exfalso. apply N3. rewrite <- M1. symmetry. eapply single_change_rd_same; [exact HS|lia|right; lia].
+    - exfalso. apply N3. rewrite <- M1. symmetry. eapply single_change_rd_same; [exact HS|lia|left; lia]. }
+  assert (NL : attr_large (rd 19 1 fb) = false).
+  { destruct (attr_large (rd 19 1 fb)) eqn:E; [|reflexivity]. exfalso. apply N3. apply C3. reflexivity. }
+  split; [exact J|]. split; [exact NL|]. split; [exact N3|]. split; [exact M1|]. split; [exact M3|].
+  unfold file_ext_of in *. replace (rd 20 3 fb =? 16777215) with false in * by lia.
+  destruct (single_change_sub fb j fb' 20 3 HS ltac:(lia) ltac:(lia)) as (p & x & y & s & Eb & Eb' & Lp & Hne & Hx & Hy).
+  assert (OK3 : bytes_ok (p ++ x :: s) = true) by (rewrite <- Eb; apply bytes_ok_sub; exact Hok).
+  unfold rd in M1 |- *. change (Z.of_nat 3) with 3 in *. rewrite Eb' in M1. rewrite Eb.
+  assert (L3 : zlen (p ++ x :: s) = 3) by (rewrite <- Eb; apply zlen_sub; lia).
+  rewrite zlen_app, zlen_cons in L3.
+  rewrite bytes_ok_app, bytes_ok_cons in OK3.
+  apply andb_true_iff in OK3 as [OKp OKs]. apply andb_true_iff in OKs as [_ OKs].
+  destruct (Z.eq_dec j 20) as [J20|J20]; [|destruct (Z.eq_dec j 21) as [J21|J21]].
+  - assert (p = []) by (apply zlen_0_inv; lia). subst p.
+    destruct (zlen_2_inv s ltac:(lia)) as (s0 & s1 & ->).
+    cbn [bytes_ok forallb] in OKs. rewrite !andb_true_iff, !byte_ok_iff in OKs.
+    cbn [app le_dec] in *. lia.
+  - destruct (zlen_1_inv p ltac:(lia)) as (p0 & ->). destruct (zlen_1_inv s ltac:(lia)) as (s0 & ->).
+    cbn [bytes_ok forallb] in OKs, OKp. rewrite !andb_true_iff, !byte_ok_iff in OKs, OKp.
+    cbn [app le_dec] in *. lia.
+  - destruct (zlen_2_inv p ltac:(lia)) as (p0 & p1 & ->).
+    assert (s = []) by (apply zlen_0_inv; lia). subst s.
+    cbn [bytes_ok forallb] in OKp. rewrite !andb_true_iff, !byte_ok_iff in OKp.
+    cbn [app le_dec] in *. lia.
 Qed.
